@@ -60,6 +60,10 @@ def gen(rng, tier):
     return B.gen(rng, tier, "C18")
 
 
+def canon(side, line):
+    return B.canon(side, line)
+
+
 def monitor(ops, outs):
     return B.monitor_c18(ops, outs)
 
